@@ -25,9 +25,11 @@ def struct_methods(repo: Repo, ci: ClassInfo) -> Dict[str, Tuple[str, int, Optio
     out: Dict[str, Tuple[str, int, Optional[bool]]] = {}
     from . import inline
     from .packed import single_defs, resolve_names
-    for name, fn in ci.methods.items():
+    raw_methods = getattr(ci.methods, "raw", ci.methods)
+    for name in list(ci.methods):
         if name.startswith("_"):
             continue
+        fn = raw_methods[name] if name in raw_methods else ci.methods[name]
         fmt = None
         # private helpers (`self._write(spec, value)`) are read through; `_read` is the reader's cursor primitive and is kept
         fn = inline.normalize(repo, ci, fn, exclude=("_read",))
@@ -35,6 +37,23 @@ def struct_methods(repo: Repo, ci: ClassInfo) -> Dict[str, Tuple[str, int, Optio
         for n in walk_no_nested(fn):
             if isinstance(n, ast.Call):
                 f = norm(n.func)
+                if f in ("unpack", "struct.unpack") and len(n.args) == 2 and fmt is None:
+                    # a reader method specialised from the cursor primitive (partialmethod(_read, "<B", 1)): the format it decodes with,
+                    # and the number of bytes it advances by
+                    try:
+                        v = repo.fold(resolve_names(n.args[0], defs), ci=ci)
+                    except NotConst:
+                        v = None
+                    if isinstance(v, str):
+                        fmt = v
+                        steps = set()
+                        for b in walk_no_nested(fn):
+                            if isinstance(b, ast.BinOp) and isinstance(b.op, ast.Add) and norm(b.left) == "self._index" and isinstance(b.right, ast.Constant) \
+                                    and isinstance(b.right.value, int):
+                                steps.add(b.right.value)
+                        if steps and steps != {struct.calcsize(v)}:
+                            fmt = f"!mismatch {v} length {sorted(steps)}"
+                    continue
                 if f in ("pack", "struct.pack", "self._read") and n.args:
                     a0 = resolve_names(n.args[0], defs)
                     # self._read(self._UINT8, default): the codec object names its format
@@ -88,6 +107,20 @@ def raw_write_methods(repo: Repo, ci: ClassInfo) -> List[str]:
             if isinstance(c.func, ast.Attribute) and c.func.attr == "write" and norm(c.func.value).startswith("self.") and len(c.args) == 1 \
                     and isinstance(c.args[0], ast.Name) and c.args[0].id == params[0]:
                 out.append(name)
+    return out
+
+
+def observer_methods(repo: Repo, ci: ClassInfo) -> List[str]:
+    """Public methods of a writer helper that put nothing into the stream: a single `return self.<stream>.getvalue()` (or `.tell()`),
+    no parameters.  A call of one is not a field of the record."""
+    out = []
+    for name, fn in ci.methods.items():
+        if name.startswith("_") or [a.arg for a in fn.args.args if a.arg != "self"]:
+            continue
+        body = [st for st in stmts_of(fn) if not (isinstance(st, ast.Expr) and isinstance(st.value, ast.Constant)) and not isinstance(st, ast.Pass)]
+        if len(body) == 1 and isinstance(body[0], ast.Return) and isinstance(body[0].value, ast.Call) and isinstance(body[0].value.func, ast.Attribute) \
+                and body[0].value.func.attr in ("getvalue", "tell") and norm(body[0].value.func.value).startswith("self.") and not body[0].value.args:
+            out.append(name)
     return out
 
 
@@ -166,6 +199,7 @@ def writer_slots(repo: Repo, ci: ClassInfo, fn: ast.FunctionDef, helper: ClassIn
     fn = inline.normalize(repo, ci, fn)
     meths = struct_methods(repo, helper)
     raws = raw_write_methods(repo, helper)
+    observers = observer_methods(repo, helper)
     wvar = fvar = None
     for n in walk_no_nested(fn):
         if isinstance(n, ast.Assign) and isinstance(n.value, ast.Call) and len(n.targets) == 1 and isinstance(n.targets[0], ast.Name):
@@ -214,6 +248,8 @@ def writer_slots(repo: Repo, ci: ClassInfo, fn: ast.FunctionDef, helper: ClassIn
                     iv = None
                 wdt = iv[0] if iv and iv[0] == iv[1] else None
                 slots.append(Slot("raw", wdt, None, norm(c.args[0]), c, preceding_comment(repo, ci, c), method="write", width_iv=iv))
+            elif m in observers:
+                continue
             else:
                 slots.append(Slot("unknown", None, None, norm(c), c, preceding_comment(repo, ci, c), method=m))
         elif fvar is not None and recv == fvar and c.func.attr == "write" and c.args:
@@ -367,6 +403,12 @@ class LenEval:
                         pass
         if isinstance(e, (ast.List, ast.Tuple)) and not any(isinstance(x, ast.Starred) for x in e.elts):
             return (len(e.elts), len(e.elts))
+        if isinstance(e, (ast.ListComp, ast.GeneratorExp)) and len(e.generators) == 2 and not e.generators[0].ifs and not e.generators[1].ifs \
+                and isinstance(e.generators[1].iter, (ast.Tuple, ast.List)) and not any(isinstance(x, ast.Starred) for x in e.generators[1].iter.elts):
+            # [v for a, b in XS for v in (a, b')]: a fixed number of elements per element of XS
+            lo, hi = self.of(e.generators[0].iter, ci, env)
+            k = len(e.generators[1].iter.elts)
+            return (lo * k, min(INF, hi * k) if hi != INF else INF)
         if isinstance(e, (ast.ListComp, ast.GeneratorExp)) and len(e.generators) == 1:
             g = e.generators[0]
             if norm(g.iter) in self.assume and not g.ifs:
@@ -434,6 +476,16 @@ class LenEval:
                     return (max(lo, n), max(hi, n))
                 if e.func.attr in ("copy",) and not e.args:
                     return self.of(e.func.value, ci, env)
+                if e.func.attr == "join" and isinstance(e.func.value, ast.Constant) and e.func.value.value == b"" and len(e.args) == 1 \
+                        and isinstance(e.args[0], (ast.GeneratorExp, ast.ListComp)) and len(e.args[0].generators) == 1 \
+                        and not e.args[0].generators[0].ifs:
+                    # b"".join(pack(F, …) for … in XS): one fixed-size piece per element of XS
+                    g0 = e.args[0].generators[0]
+                    tnames = {n.id for n in ast.walk(g0.target) if isinstance(n, ast.Name)}
+                    plo, phi = self.of(e.args[0].elt, ci, {k: v for k, v in env.items() if k not in tnames})
+                    if plo == phi:
+                        lo, hi = self.of(g0.iter, ci, env)
+                        return (lo * plo, min(INF, hi * plo) if hi != INF else INF)
                 if e.func.attr == "getvalue":
                     raise Unknown("buffer")
         if isinstance(e, ast.Name) and e.id == "self":
@@ -510,8 +562,8 @@ class LenEval:
             fn = inline._Rename(dict(consts)).visit(fn)
         # once-bound locals that name an integer expression over lengths (`missing = K - len(values)`) are written at their uses
         from .packed import single_defs as _sd1
-        int_locals = {k_: v_ for k_, v_ in _sd1(fn).items() if isinstance(v_, ast.BinOp) and isinstance(v_.op, (ast.Sub, ast.Add))
-                      and any(isinstance(x, ast.Call) and norm(x.func) == "len" for x in ast.walk(v_))}
+        int_locals = {k_: v_ for k_, v_ in _sd1(fn).items() if isinstance(v_, ast.BinOp) and isinstance(v_.op, (ast.Sub, ast.Add, ast.Mult))
+                      and any(isinstance(x, ast.Call) and norm(x.func) == "len" for x in ast.walk(v_))}     # incl. `padding = [0] * max(0, K - len(v))`
         if int_locals:
             fn = copy.deepcopy(fn)
             fn.body = [st for st in fn.body if not (isinstance(st, ast.Assign) and len(st.targets) == 1 and isinstance(st.targets[0], ast.Name)
